@@ -9,8 +9,15 @@
           A10 configurations; and in majority mode with two followers TLC must REFUTE AckSafety: that counterexample is turned
           into a replay script and run on the real code as a regression history (the repaired code must pass it; if it
           reproduces, the monitor reports it as a plain violation - finding A10 is recorded as fixed and suppresses nothing)
+        - the leader's flush as TWO writes (entries to append.aof.N, value frames to append.aof.N.dat; either can fail alone;
+          the "own log written" acknowledgements after both): EntryInLog, ValueInLog, FailedWriteAnswered; the deviating
+          ordering "acknowledge after the entry write" (AckAfterRecords = TRUE, seeded change C11d) must be REFUTED twice
+          (SUCCED while the value frame is not in the value file; SUCCED after a failed value write): both counterexamples
+          are replayed on the real code as regression behaviours
   (2) TLC -simulate behaviours of AckQuorumSim -> replayed on the real code (engine A, TestVerifAck)
-  (3) seeded wide-range histories (lib/gen_ack.py) + directed histories (scenarios/ack_directed.json)
+  (3) seeded wide-range histories (lib/gen_ack.py) + the flush-fault matrix (gen_ack.flush_matrix: 0..2 followers x ack mode x
+      failing write entry / value / both x value carrier SET / INCR / APPEND / key value / none x flush position x acks before /
+      after the flush) + directed histories (scenarios/ack_directed.json)
   (4) every recorded trace validated by TLC against the property monitor spec/mon/MonAck.tla
   (5) binding self-tests: recorded traces are corrupted (one field / one line) and must be rejected
 """
@@ -20,21 +27,27 @@ from vbuild import VERIF, InfraError
 
 PROPS = ["C11"]
 MANIFEST = {"C11": dict(level="model_checking", design="5/C11", engine="A",
-    technique="TLC on the AckQuorum model (leader ack table + ack counter with separate leader-flush mark, channel FIFO, follower handshake, faults) + TLC-generated and seeded fault "
+    technique="TLC on the AckQuorum model (leader ack table + ack counter with separate leader-flush mark, channel FIFO, the log flush as two writes - entries, "
+              "value frames - each of which can fail alone, follower handshake, faults) + TLC-generated and seeded fault "
               "schedules replayed on the real leader code (real AofChannel / Aof / ReplicationAckDB / LockDB; follower acks, leader flush, link cuts and "
               "demotion injected through the entry points the real peers use) + trace validation against the TLA+ monitor MonAck",
     text="The model is exhausted for ack modes all/majority x 0..2 followers x {negative ack, failing leader write, link cut, demotion} over every "
          "delivery order of the handshake; on the real code every SUCCED of an ack-required lock is judged against what is physically in the leader's "
-         "append file at the moment of the reply (file re-read inside the reply callback) and against the set of followers whose positive ack was "
+         "append file AND value file at the moment of the reply (both files re-read inside the reply callback: the 64-byte entry, and the value frame "
+         "at the offset its flush gave it when the record carries one) and against the set of followers whose positive ack was "
          "delivered; requests naming a pending LockId must get LOCK_ACK_WAITING; after an error reply the hold must be gone, the value restored and the "
          "queue served; nothing may stay pending after the drain.",
     note="In-process and leader-local: followers are played by the driver through Aof.loadLockAck (what ReplicationServer.RecvProcess calls), the "
          "leader's flush through AofFile.Flush under Aof.aofGlock with the idle-flush held back by keeping Aof.channelActiveCount at 1 ('another shard is "
-         "busy'); the follower side (ProcessFollowerAckLocked/AckAofed) and the TCP path are modelled but not bound here. Exclusive keys in the model; "
+         "busy'); a failing write of the entry file or of the value file alone = that file's handle swapped for /dev/full inside hook aof.flush.enter; "
+         "hook aof.flush.mid lets the channel goroutine run between the two writes; the follower side (ProcessFollowerPushAckLock / AckLocked / AckAofed -> ReplicationClient.HandleAcked) is bound by the follower part of engine A: a real "
+         "follower-role node is handed records through Aof.AppendLock / Aof.ReplayLock and the ack frame it writes to its client connection is captured; the TCP path is not bound here. Exclusive keys in the model; "
          "shared keys, INCR/APPEND values and parked DoAckLock only in the seeded histories. Trusted: TLC, the engine A harness, MonAck.")}
 ENGINES = [{"name": "A", "path": "harness/inpkg/server/zz_verif_ack_test.go", "serves_properties": ["C11"],
-            "kind_free_text": "in-package leader-local replay of TLC-generated ack/flush/fault schedules on the real AofChannel + ReplicationAckDB + LockDB; on-disk "
-                              "observation of the leader log at every reply; ndjson traces validated by TLC against MonAck"}]
+            "kind_free_text": "in-package leader-local replay of TLC-generated ack/flush/fault schedules on the real AofChannel + ReplicationAckDB + LockDB (either log file of a "
+                              "flush can be made to fail alone; the flush can be held between its two writes); on-disk observation of the leader log - entry file and value "
+                              "file - at every reply; follower part (TestVerifAckFollower): a real follower-role node handed records through Aof.AppendLock / ReplayLock, its "
+                              "ack frames captured on the replication client's connection; ndjson traces validated by TLC against MonAck"}]
 
 SPEC = os.path.join(VERIF, "spec")
 LIDN = {"l1": 1, "l2": 2, "l3": 3, "l4": 4}
@@ -77,8 +90,21 @@ def behaviour_to_scenario(b, name):
                 steps[-1]["n"] += 1
             else:
                 steps.append({"op": "tick", "n": 1})
-        elif op == "flush":
-            steps.append({"op": "flush", "ok": bool(st["ok"])})
+        elif op == "flushrec":
+            # first write of AofFile.Flush (entries); a failing one ends the flush
+            if st["ok"]:
+                steps.append({"op": "flush", "ok": True, "rec": "ok", "val": "", "mid": True, "_open": True})
+            else:
+                steps.append({"op": "flush", "ok": False, "rec": "fail", "val": "", "mid": False})
+        elif op == "flushval":
+            # second write (values); id = number of channel items handled between the two writes
+            f = steps[-1]
+            if not f.pop("_open", False):
+                raise InfraError("behaviour with a value write that does not follow an entry write")
+            f["val"] = "ok" if st["ok"] else "fail"
+            f["ok"] = bool(st["ok"])
+            f["mid"] = True          # (the wait between the two writes is a no-op when the channel has nothing to handle)
+            f["midsteps"] = st["id"]
         elif op == "fack":
             f = fmap.get(st["f"], 0)
             steps.append(gen_ack.fack(f, st["rid"], 1, LIDN[st["lid"]], ok=bool(st["ok"])))
@@ -88,8 +114,28 @@ def behaviour_to_scenario(b, name):
             steps.append({"op": "demote"})
         else:
             raise InfraError("unknown behaviour step " + op)
+    for f in steps:
+        f.pop("_open", None)       # (a counterexample may end between the two writes: the engine completes the flush)
     steps.append({"op": "drain", "n": 12})
     return {"name": name, "followers": len(b["up0"]), "mode": 1 if b["mode"] == "maj" else 0, "steps": steps, "complete": True, "cfg": {}}
+
+def behaviour_to_follower_scenario(b, name):
+    """A behaviour of the two-sided follower handshake (FollowerSteps = 2) seen from ONE follower -> a scenario of the follower
+    part of engine A: `lock` defines the record, `frepl` = the follower replays it, `faof` = the follower appends it to its own
+    log and flushes (id 0: both writes work, 1: the entry write fails, 2: the value write fails)."""
+    recs, steps = {}, []
+    for st in b["hist"]:
+        if st["op"] == "lock":
+            recs[st["id"]] = gen_ack.frec("", st["id"], 1, LIDN[st["lid"]], gen_ack.data_set("m%d" % st["dv"]) if st["dv"] > 0 else "", ack=bool(st["ack"]))
+        elif st["op"] == "frepl":
+            if not st["ok"]:
+                raise InfraError("follower behaviour with a refused replay cannot be forced on the real node")
+            steps.append(dict(recs[st["rid"]], op="replay"))
+        elif st["op"] == "faof":
+            steps.append(dict(recs[st["rid"]], op="append"))
+            steps.append({"op": "flush", "ok": st["id"] == 0, "rec": "fail" if st["id"] == 1 else "ok", "val": "fail" if st["id"] == 2 else "ok", "mid": True})
+    steps.append({"op": "tick", "n": 1})
+    return {"name": name, "cfg": {}, "steps": steps}
 
 def parse_behaviours(out, tag):
     hs = set()
@@ -129,6 +175,38 @@ def corruptions(lines):
             c[i]["ondisk"] = False
             yield "ondisk", dump(c), f"line {i+1}: 'record on the leader's disk' of a SUCCED ack reply rewritten to false", "succed-before-leader-log"
             break
+    # (a2) the value frame of a value-carrying SUCCED ack reply is reported missing from the value file
+    for i, e in enumerate(evs):
+        if e["e"] == "reply" and e.get("ackreq") and e["res"] == 0 and e.get("ondisk") is True and e.get("hasval") is True and e.get("valknown") and e.get("valondisk") is True:
+            c = [dict(x) for x in evs]
+            c[i]["valondisk"] = False
+            yield "valondisk", dump(c), f"line {i+1}: 'value frame of the record in the leader's value file' of a SUCCED ack reply rewritten to false", "succed-before-value-in-leader-log"
+            break
+    # (a3) the value write of the flush that carried the record of a later SUCCED is rewritten to "failed"
+    succ = {e["rid"] for e in evs if e["e"] == "reply" and e.get("ackreq") and e["res"] == 0}
+    for i, e in enumerate(evs):
+        if e["e"] == "flush" and e.get("ok") and any(r["hv"] and r["rid"] in succ for r in e.get("recs", [])):
+            c = [dict(x) for x in evs]
+            c[i]["val"], c[i]["ok"] = False, False
+            yield "flushval", dump(c), f"line {i+1}: the value write of a flush whose record was later answered SUCCED rewritten to failed", "succed-after-failure"
+            break
+    # (f1) follower part: the value frame of a positively acknowledged record is reported missing from the follower's value file
+    for i, e in enumerate(evs):
+        if e["e"] == "fsent" and e.get("res") == 0 and e.get("entry") and e.get("hasval") and e.get("valknown") and e.get("valondisk"):
+            c = [dict(x) for x in evs]
+            c[i]["valondisk"] = False
+            yield "fvalondisk", dump(c), f"line {i+1}: 'value frame in the follower's own value file' of a positive follower ack rewritten to false", "follower-acked-positive-before-own-log"
+            break
+    # (f2) follower part: the value write of the flush that carried a positively acknowledged record is rewritten to "failed"
+    fpos = {e["id"] for e in evs if e["e"] == "fsent" and e.get("res") == 0}
+    if evs[0].get("mode") == "ackf":
+        for i, e in enumerate(evs):
+            if e["e"] == "flush" and e.get("ok") and any(r["hv"] and r["rid"] in fpos for r in e.get("recs", [])) and \
+               not any(x["e"] == "fsent" and x.get("id") in {r["rid"] for r in e["recs"]} for x in evs[:i]):
+                c = [dict(x) for x in evs]
+                c[i]["val"], c[i]["ok"] = False, False
+                yield "fflushval", dump(c), f"line {i+1}: the value write of a follower's flush whose record it acknowledged positively rewritten to failed", "follower-acked-positive-after-failed-log-write"
+                break
     # (b) one positive follower ack that was needed for the quorum is removed from the record
     pend_acks = {}
     nocut = not any(e["e"] in ("cut", "demote") and not e.get("skipped") for e in evs) and evs[0].get("followers", 0) >= 1
@@ -174,34 +252,42 @@ def corruptions(lines):
             break
 
 def selftests(traces, wd):
-    """Run each kind of corruption once (on the first history that offers it); every one must be rejected with its code."""
-    done, results = set(), []
-    wanted = {"ondisk", "quorum", "ackwaiting", "value"}
+    """Run each kind of corruption once (on the first history that offers it); every one must be rejected with its code.
+    Candidates are collected first (up to 3 per kind), the kinds are then evaluated side by side."""
+    import concurrent.futures as cf
+    wanted = {"ondisk", "quorum", "ackwaiting", "value", "valondisk", "flushval", "fvalondisk", "fflushval"}
+    cands = {}
     for tr in traces:
         lines = read(tr).splitlines()
         starts = [i for i, x in enumerate(lines) if '"e":"begin"' in x[:40]] + [len(lines)]
         for a, b in zip(starts, starts[1:]):
             base = lines[a:b]
             for kind, cl, desc, code in corruptions(base):
-                if kind in done:
-                    continue
-                # the uncorrupted history must be free of that code, otherwise the demonstration is void
-                p0 = os.path.join(wd, f"selftest_{kind}_orig.ndjson")
-                with open(p0, "w") as fh:
-                    fh.write("\n".join(base) + "\n")
-                v0, _ = engine.monitor_traces("MonAck", [p0], ["C11"], os.path.join(wd, f"st_{kind}_0"))
-                if any(v["code"] == code for v in v0):
-                    continue
-                p = os.path.join(wd, f"selftest_{kind}.ndjson")
-                with open(p, "w") as fh:
-                    fh.write("\n".join(cl) + "\n")
-                v1, _ = engine.monitor_traces("MonAck", [p], ["C11"], os.path.join(wd, f"st_{kind}_1"))
-                codes = sorted({v["code"] for v in v1})
-                results.append({"kind": kind, "corruption": desc, "rejected": code in codes, "codes": codes})
-                done.add(kind)
-            if done >= wanted:
-                return results
-    return results
+                if len(cands.setdefault(kind, [])) < 3:
+                    cands[kind].append((base, cl, desc, code))
+            if all(len(cands.get(k, [])) >= 3 for k in wanted):
+                break
+        if all(len(cands.get(k, [])) >= 3 for k in wanted):
+            break
+    def one(kind):
+        for n, (base, cl, desc, code) in enumerate(cands[kind]):
+            # the uncorrupted history must be free of that code, otherwise the demonstration is void
+            p0 = os.path.join(wd, f"selftest_{kind}_{n}_orig.ndjson")
+            with open(p0, "w") as fh:
+                fh.write("\n".join(base) + "\n")
+            v0, _ = engine.monitor_traces("MonAck", [p0], ["C11"], os.path.join(wd, f"st_{kind}_{n}_0"))
+            if any(v["code"] == code for v in v0):
+                continue
+            p = os.path.join(wd, f"selftest_{kind}_{n}.ndjson")
+            with open(p, "w") as fh:
+                fh.write("\n".join(cl) + "\n")
+            v1, _ = engine.monitor_traces("MonAck", [p], ["C11"], os.path.join(wd, f"st_{kind}_{n}_1"))
+            codes = sorted({v["code"] for v in v1})
+            return {"kind": kind, "corruption": desc, "rejected": code in codes, "codes": codes}
+        return None
+    kinds = sorted(cands)
+    with cf.ThreadPoolExecutor(max_workers=max(1, min(len(kinds), engine.NCPU // 2))) as ex:
+        return [r for r in ex.map(one, kinds) if r is not None]
 
 # ------------------------------------------------------------------ the check
 
@@ -221,6 +307,11 @@ def run(prop, tier, seed):
             "prefix": lambda: run_model("prefix", "AckQuorum_prefix.cfg", wd, 1200, workers=max(1, engine.NCPU // 4),
                       overrides={"NFs = {0, 1, 2}": "NFs = {2}", 'Classes = {"neg", "fail", "cut", "dem"}': 'Classes = {"neg", "fail", "cut"}'} if quick else None),
             "a10": lambda: run_model("a10", "AckQuorum_a10.cfg", wd, 900, workers=1),
+            "c11d_early": lambda: run_model("c11d_early", "AckQuorum_c11d_early.cfg", wd, 900, workers=1),
+            "c11d_fail": lambda: run_model("c11d_fail", "AckQuorum_c11d_fail.cfg", wd, 900, workers=1),
+            "c11d_follower": lambda: run_model("c11d_follower", "AckQuorum_c11d_follower.cfg", wd, 900, workers=1),
+            "heal": lambda: run_model("heal", "AckQuorum_quick.cfg" if quick else "AckQuorum_thorough.cfg", wd, 1200 if quick else 3000, workers=max(2, engine.NCPU // 4),
+                      overrides={"Heal = FALSE": "Heal = TRUE", "MaxFail = 1": "MaxFail = 2", 'Classes = {"neg", "fail", "cut", "dem"}': 'Classes = {"fail"}'}),
             "sim": lambda: vtlc.run_tlc(SPEC, "AckQuorumSim", read(os.path.join(SPEC, "sim", "AckQuorum_sim.cfg")), os.path.join(wd, "sim"), workers=1,
                           timeout=900 if quick else 2400, simulate=f"num={nb}", depth=110, seed=seed),
             "build": lambda: vbuild.build_inpkg("server", wd),
@@ -234,6 +325,7 @@ def run(prop, tier, seed):
         models["code_as_is_A10Fixed"] = must_pass("code as it is", R["code"])
         models["follower_handshake"] = must_pass("follower handshake", R["follower"])
         models["before_fix_3033d68_regression_model"] = must_pass("pre-fix regression model", R["prefix"])
+        models["two_write_flush_files_healing"] = must_pass("two-write flush, files fail and heal", R["heal"])
         # the A10 counterexample
         r = R["a10"]
         cx = [json.loads(h) for h in parse_behaviours(r["out"], "CX")]
@@ -243,6 +335,29 @@ def run(prop, tier, seed):
         cx_scs = [behaviour_to_scenario(b, f"tlc-cx-A10-{i}") for i, b in enumerate(sorted(cx, key=lambda b: len(b["hist"]))[:2])]
         models["a10_counterexample"] = {"model": "A10Fixed = FALSE (before fix 3033d68)", "refuted": "AckSafety", "steps": [s["op"] for s in cx_scs[0]["steps"]],
                                         "role": "regression history: the repaired code must pass it; a reproduction is reported by the monitor as a violation"}
+        # the deviating ordering of the seeded change C11d: both refutations, as replay scripts
+        c11d_scs = []
+        for key, inv, what in (("c11d_early", "ValueInLogCx", "SUCCED while the value frame of the record is not in the value file"),
+                               ("c11d_fail", "FailedWriteCx", "SUCCED after the value write of the record's flush failed")):
+            r = R[key]
+            cxs = [json.loads(h) for h in parse_behaviours(r["out"], "CX")]
+            if inv + " is violated" not in r["out"] or not cxs:
+                raise InfraError(f"the model of the deviating flush ordering (AckAfterRecords = TRUE) no longer refutes {inv} (model / config problem, "
+                                 "nothing to do with the real code):\n" + r["out"][-2000:])
+            sc = behaviour_to_scenario(sorted(cxs, key=lambda b: len(b["hist"]))[0], f"tlc-cx-{key}")
+            c11d_scs.append(sc)
+            models[key + "_counterexample"] = {"model": "AckAfterRecords = TRUE (ack after the entry write, before the value write)", "refuted": inv, "meaning": what,
+                                               "steps": [{k: v for k, v in st.items() if k in ("op", "rec", "val", "mid", "f")} for st in sc["steps"]],
+                                               "role": "regression behaviour: the code must pass it; a reproduction is reported by the monitor as a violation"}
+        r = R["c11d_follower"]
+        cxs = [json.loads(h) for h in parse_behaviours(r["out"], "CX")]
+        if "FollowerAckCx is violated" not in r["out"] or not cxs:
+            raise InfraError("the model of the deviating flush ordering no longer refutes FollowerAckHonest (model / config problem):\n" + r["out"][-2000:])
+        fcx = behaviour_to_follower_scenario(sorted(cxs, key=lambda b: len(b["hist"]))[0], "tlc-cx-c11d_follower")
+        models["c11d_follower_counterexample"] = {"model": "AckAfterRecords = TRUE on a follower (FollowerSteps = 2)", "refuted": "FollowerAckHonest",
+                                                  "meaning": "a follower whose value write failed sends a positive acknowledgement",
+                                                  "steps": [{k: v for k, v in st.items() if k in ("op", "id", "rec", "val")} for st in fcx["steps"]],
+                                                  "role": "regression behaviour replayed on a real follower-role node"}
         st_states = sum(m.get("distinct_states", 0) for m in models.values())
         st_gen = sum(m.get("generated", 0) for m in models.values())
         rs = R["sim"]
@@ -263,9 +378,16 @@ def run(prop, tier, seed):
         rnd = [gen_ack.gen_ack(seed, i) for i in range(220 if quick else 4000)]
         with open(os.path.join(VERIF, "scenarios", "ack_directed.json")) as fh:
             direct = json.load(fh)
-        scs = cx_scs + beh + rnd + direct
+        matrix = gen_ack.flush_matrix(seed, sample=150 if quick else None)
+        scs = cx_scs + c11d_scs + beh + rnd + matrix + direct
         t1 = time.time()
         res = engine.run_harness(binp, "TestVerifAck", scs, os.path.join(wd, "run"), tag="a", timeout=1500)
+        # follower part of engine A: records handed to a real follower-role node, its own log flushed with failing writes
+        fscs = [fcx] + gen_ack.follower_matrix(seed, sample=90 if quick else None)
+        fres = engine.run_harness(binp, "TestVerifAckFollower", fscs, os.path.join(wd, "runf"), tag="f", timeout=900)
+        for fin, fout, p in fres:
+            if p is not None:
+                raise InfraError(f"engine A (follower part) died on {fin}:\n" + (p.stdout or "")[-3000:] + (p.stderr or "")[-2000:])
         t_harness = time.time() - t1
         traces = []
         for fin, fout, p in res:
@@ -279,17 +401,21 @@ def run(prop, tier, seed):
                 out.viols.append(cv)
                 engine.drop_unfinished(fout)
             traces.append(fout)
+        traces += [fout for _, fout, _ in fres]
         # (4) monitor
         t1 = time.time()
         viols, mst = engine.monitor_traces("MonAck", traces, [prop], os.path.join(wd, "mon"))
         t_monitor = time.time() - t1
-        byname = {sc["name"]: sc for sc in scs}
+        byname = {sc["name"]: sc for sc in scs + fscs}
         for v in viols:
             if v["prop"] == prop:
                 out.viols.append((v, byname.get(v.get("name"))))
         cx_names = {s["name"] for s in cx_scs}
         cx_reproduced = any(v.get("name") in cx_names and v["code"] == "succed-before-leader-log" for v in viols)
         models["a10_counterexample"]["reproduced_on_real_code"] = cx_reproduced
+        models["c11d_follower_counterexample"]["reproduced_on_real_code"] = any(v.get("name") == fcx["name"] for v in viols)
+        for sc in c11d_scs:
+            models[sc["name"][len("tlc-cx-"):] + "_counterexample"]["reproduced_on_real_code"] = any(v.get("name") == sc["name"] for v in viols)
         # (5) self-tests
         t1 = time.time()
         stests = selftests(traces, wd)
@@ -297,23 +423,50 @@ def run(prop, tier, seed):
         bad = [s for s in stests if not s["rejected"]]
         if bad:
             raise InfraError("self-test failed: the monitor accepted a corrupted trace: " + json.dumps(bad))
+        if not {"valondisk", "flushval", "fvalondisk", "fflushval"} <= {t["kind"] for t in stests}:
+            raise InfraError("self-test of the two-write clauses could not be performed (no accepted history with a value-carrying SUCCED): " + json.dumps(stests))
         if len(stests) < 3:
             raise InfraError("self-test could not be performed (too few corruptible histories): " + json.dumps(stests))
         # measured coverage of the real-code runs
         cov = {"ack_requests": 0, "ack_succed": 0, "ack_error_replies": 0, "ack_timeouts": 0, "ack_waiting_replies": 0, "follower_acks_pos": 0,
                "follower_acks_neg": 0, "flushes_ok": 0, "flushes_failed": 0, "cuts": 0, "demotions": 0, "parked_doack": 0, "queue_grants_pending": 0,
+               "flushes_entry_write_failed": 0, "flushes_value_write_failed": 0, "flushes_with_value_frames": 0, "flushes_held_between_the_two_writes": 0,
+               "ack_records_in_failed_entry_write": 0, "ack_records_with_value_in_failed_value_write": 0, "ack_records_without_value_in_failed_value_write": 0,
+               "ack_succed_with_value_frame_checked": 0, "ack_succed_without_value": 0, "ack_error_with_value_frame": 0, "value_frames_unattributed": 0,
+               "flushes_ok_after_a_failed_one": 0, "failing_write_by_config": {},
+               "follower_part": {"histories": 0, "records": 0, "records_with_value": 0, "ack_frames_positive": 0, "ack_frames_negative": 0,
+                                 "ack_frames_negative_with_log_intact": 0, "flushes_entry_write_failed": 0, "flushes_value_write_failed": 0, "flushes_ok": 0},
                "configs": {}}
         nontrivial_names = set()
         for tr in traces:
-            cfgk, waiting, curname = None, set(), None
+            cfgk, waiting, curname, hadfail, fside = None, set(), None, False, False
             with open(tr) as fh:
                 for ln in fh:
                     e = json.loads(ln)
                     k = e["e"]
+                    if k == "begin" and e.get("mode") == "ackf":
+                        fside = True
+                        cov["follower_part"]["histories"] += 1
+                        continue
+                    if k == "begin":
+                        fside = False
+                    if fside:
+                        fp = cov["follower_part"]
+                        if k == "frec":
+                            fp["records"] += 1
+                            fp["records_with_value"] += 1 if e["hasval"] else 0
+                        elif k == "fsent" and "res" in e:
+                            fp["ack_frames_positive" if e["res"] == 0 else "ack_frames_negative"] += 1
+                            if e["res"] != 0 and e.get("entry") and e.get("valondisk", True):
+                                fp["ack_frames_negative_with_log_intact"] += 1
+                        elif k == "flush" and e.get("nrec", 0) > 0:
+                            fp["flushes_ok" if e["ok"] else ("flushes_entry_write_failed" if not e["rec"] else "flushes_value_write_failed")] += 1
+                        continue
                     if k == "begin":
                         cfgk = f"nf{e['followers']}-mode{e['ackmode']}"
                         cov["configs"][cfgk] = cov["configs"].get(cfgk, 0) + 1
                         waiting = set()
+                        hadfail = False
                         curname = e["name"]
                     elif k == "req" and e["cmd"] == "L" and e["tf"] & 0x1000:
                         cov["ack_requests"] += 1
@@ -329,6 +482,12 @@ def run(prop, tier, seed):
                         if e["res"] == 12:
                             cov["ack_waiting_replies"] += 1
                         if e.get("ackreq"):
+                            if e.get("hasval") and not e.get("valknown"):
+                                cov["value_frames_unattributed"] += 1
+                            if e["res"] == 0:
+                                cov["ack_succed_with_value_frame_checked" if e.get("hasval") and e.get("valknown") else "ack_succed_without_value"] += 1
+                            elif e["res"] == 11 and e.get("hasval"):
+                                cov["ack_error_with_value_frame"] += 1
                             if e["res"] == 0:
                                 cov["ack_succed"] += 1
                             elif e["res"] == 8:
@@ -338,7 +497,27 @@ def run(prop, tier, seed):
                     elif k == "fack" and not e.get("skipped"):
                         cov["follower_acks_pos" if e["res"] == 0 else "follower_acks_neg"] += 1
                     elif k == "flush":
+                        if e.get("nrec", 1) == 0:
+                            continue          # (an idle flush with empty buffers)
                         cov["flushes_ok" if e["ok"] else "flushes_failed"] += 1
+                        recs = e.get("recs", [])
+                        if e.get("ndat", 0) > 0:
+                            cov["flushes_with_value_frames"] += 1
+                        if e.get("mid"):
+                            cov["flushes_held_between_the_two_writes"] += 1
+                        if e["ok"] and hadfail:
+                            cov["flushes_ok_after_a_failed_one"] += 1
+                        if not e["ok"]:
+                            hadfail = True
+                            kind = "entry" if not e.get("rec", False) else "value"
+                            cov["flushes_entry_write_failed" if kind == "entry" else "flushes_value_write_failed"] += 1
+                            d = cov["failing_write_by_config"].setdefault(cfgk, {"entry": 0, "value": 0})
+                            d[kind] += 1
+                            for r in recs:
+                                if kind == "entry":
+                                    cov["ack_records_in_failed_entry_write"] += 1
+                                else:
+                                    cov["ack_records_with_value_in_failed_value_write" if r["hv"] else "ack_records_without_value_in_failed_value_write"] += 1
                     elif k == "cut" and not e.get("skipped"):
                         cov["cuts"] += 1
                     elif k == "demote" and not e.get("skipped"):
@@ -346,28 +525,33 @@ def run(prop, tier, seed):
                     elif k == "parked":
                         cov["parked_doack"] += 1
         out.coverage = {
-            "states": st_states, "transitions": st_gen, "traces_validated_against_impl": len(scs),
-            "samples": [{"name": s["name"], "followers": s["followers"], "mode": s["mode"], "steps": s["steps"][:12]} for s in (cx_scs[:1] + beh[:1] + rnd[:1])],
+            "states": st_states, "transitions": st_gen, "traces_validated_against_impl": len(scs) + len(fscs),
+            "samples": [{"name": s["name"], "followers": s["followers"], "mode": s["mode"], "steps": s["steps"][:12]} for s in (cx_scs[:1] + c11d_scs + beh[:1] + rnd[:1] + matrix[:1])],
             "exhaustive": True, "exhaustive_scope": "the bounded TLA+ design models are enumerated completely; the schedules run on the real code are a sample (TLC random walks, seeded, directed)",
             "models": models,
             "model": {"module": "spec/AckQuorum.tla", "constants": "modes all/majority x 0..2 followers x one fault class {negative ack, failing flush, link cut, demotion} per "
                       "behaviour, 2 LockIds, SET values, ack wait 1 s, %d requests, clock <= %d; symmetry over followers and LockIds; channel-priority reduction" % ((2, 2) if quick else (3, 2)),
-                      "invariants": ["AckSafety", "NodeQuorum", "PendingAnswered", "NoSuccessAfterFailure", "ErrorCleansUp", "ValueInv", "NoLostWakeup", "OneReply",
-                                     "PendShape", "TableShape", "Exclusive", "AckSafetyExceptA10 (regression model A10Fixed = FALSE)"]},
-            "tlc_behaviours_replayed": len(beh), "tlc_behaviours_printed": len(hs), "tlc_counterexamples_replayed": len(cx_scs),
-            "random_histories": len(rnd), "directed_histories": len(direct),
+                      "invariants": ["AckSafety", "EntryInLog", "ValueInLog", "FailedWriteAnswered", "NodeQuorum", "PendingAnswered", "NoSuccessAfterFailure", "ErrorCleansUp", "ValueInv", "NoLostWakeup", "OneReply",
+                                     "PendShape", "TableShape", "Exclusive", "AckSafetyExceptA10 (regression model A10Fixed = FALSE)",
+                                     "ValueInLog / NoSuccessAfterFailure REFUTED under AckAfterRecords = TRUE (deviation C11d)"]},
+            "tlc_behaviours_replayed": len(beh), "tlc_behaviours_printed": len(hs), "tlc_counterexamples_replayed": len(cx_scs) + len(c11d_scs),
+            "random_histories": len(rnd), "flush_fault_matrix_histories": len(matrix), "follower_part_histories": len(fscs), "directed_histories": len(direct),
             "monitor": {"module": "spec/mon/MonAck.tla", "events": mst["events"], "monitor_states": mst["monitor_states"]},
             "real_code_events": cov,
             "stage_wall_s": {"tlc_models_and_build": round(t_models, 1), "harness": round(t_harness, 1), "monitor": round(t_monitor, 1), "selftest": round(t_selftest, 1)},
             "selftest": {"all_rejected": True, "cases": stests},
-            "evaluations": len(scs),
+            "evaluations": len(scs) + len(fscs),
             "distinct_nontrivial": len({json.dumps([s["followers"], s["mode"], s["steps"]], sort_keys=True) for s in scs if s["name"] in nontrivial_names}),
             "rule": "one evaluation = one fault schedule replayed on the real leader code and validated by the TLA+ monitor MonAck; non-trivial = at least one "
                     "ack-required lock was observed ack-pending in the leader's ack table during the run; distinct = distinct (followers, mode, step sequence)",
         }
         out.assumptions = [
             "leader-local: follower acks, the leader's flush, link cuts and demotion are injected in-process through the entry points the real peers use; no TCP, no follower process",
+            "follower part: one follower-role node in the same process; records are built by the driver (AofLock.Encode) and handed on as ReplicationClient.Process does (Aof.AppendLock / Aof.ReplayLock), the client's three goroutines and the stream reader are not run; what a positive follower acknowledgement means (replayed AND in that follower's own log) is taken from the handshake the property's anchors name, the statement itself only says 'acknowledged'",
             "the leader's idle flush is held back by keeping Aof.channelActiveCount at 1 (the state 'another shard's channel is busy'); the buffer-full flush is not reached (few records)",
+            "a write failure is ENOSPC on every write to that file (handle swapped for /dev/full under Aof.aofGlock); partial writes are not produced; values are small enough to be buffered (the direct value write of WriteLockData is not reached)",
+            "between the two writes of a flush only the shard's channel goroutine runs (client requests arriving in that window are ordered after the flush, in the model and in the engine)",
+            "the value frame of a record is looked for at the offset its flush gave it (size of the value file when the flush began + position in the value buffer); after a failed value write later frames are therefore still found where they were written (what a replay of the log makes of the shifted frames is C08's matter)",
             "one shard (DBConcurrent = 1) so that quiescence of the single AofChannel is decidable; the channel goroutine handles items eagerly (no lag relative to timeouts) except when parked at the DoAckLock hook",
             "re-entrant re-locks and update requests carrying the require-ack flag are outside the statement's quantification and are not generated",
             "the required number of followers is all = n, majority = floor((n+1)/2) (no arbiter); when links are cut while a request is pending the minimum over the configurations seen is demanded",
